@@ -52,6 +52,30 @@ def body(ck):
     from lerax.policy.sac import MLPSACPolicy
     from lerax.wrapper import TimeLimit
 
+    from lerax.callback import AbstractCallbackState, AbstractIterationCallback, AbstractStepCallback, AbstractCallbackStepState
+
+    class CountState(AbstractCallbackState):
+        n: jax.Array
+
+    class IterCounter(AbstractIterationCallback):
+        """a user-defined observer with iteration-level state (an array that it updates every iteration)"""
+        def reset(self, ctx, *, key):
+            return CountState(jnp.zeros((), dtype=int))
+
+        def on_iteration(self, ctx, *, key):
+            return CountState(ctx.state.n + 1 + (jr.randint(key, (), 0, 2) * 0))
+
+    class StepSumState(AbstractCallbackStepState):
+        total: jax.Array
+
+    class StepSummer(AbstractStepCallback):
+        """a user-defined observer with per-environment step state"""
+        def step_reset(self, ctx, *, key):
+            return StepSumState(jnp.zeros(()))
+
+        def on_step(self, ctx, *, key):
+            return StepSumState(ctx.state.total + ctx.reward + jr.uniform(key, ()) * 0.0)
+
     class Rec(AbstractLoggingBackend):
         rows: list = eqx.field(static=True)
 
@@ -100,9 +124,13 @@ def body(ck):
         if same(base, other):
             ck.violations.append(Violation("impl-violates-property", f"C11/{name}/key-ignored", "learn() with a different key returned identical parameters", case=ck.current_case))
         observer_sets = [("logging", lambda: LoggingCallback(Rec(), name="verif")), ("progress", lambda: ProgressBarCallback(total_timesteps=total) if True else None),
-                         ("list", lambda: [LoggingCallback(Rec(), name="verif"), ProgressBarCallback(total_timesteps=total)])]
+                         ("list", lambda: [LoggingCallback(Rec(), name="verif"), ProgressBarCallback(total_timesteps=total)]),
+                         ("user-iteration-state", lambda: IterCounter()), ("user-step-state", lambda: StepSummer()),
+                         ("list+user", lambda: [LoggingCallback(Rec(), name="verif"), IterCounter(), StepSummer()])]
         if quick and name in ("A2C", "REINFORCE"):
-            observer_sets = observer_sets[:1]
+            observer_sets = [observer_sets[0], observer_sets[3]]
+        elif quick:
+            observer_sets = [observer_sets[0], observer_sets[1], observer_sets[3], observer_sets[5]]
         for oname, mkcb in observer_sets:
             with quiet_fd():
                 cb = mkcb()
